@@ -991,7 +991,8 @@ class Commander:
             if not application_job.in_progress():
                 # nothing more to do for this application
                 self.after(application_job)
-                del self.current_jobs[application_name]
+                # NOTE: 'after' may trigger a forced process event that re-enters this method
+                self.current_jobs.pop(application_name, None)
         # if no more current_jobs, pop lower sequence from planned_jobs and trigger application_jobs
         self.logger.debug(f'{self.class_name}.next: current_jobs={list(self.current_jobs.keys())}')
         if self.planned_jobs and not self.current_jobs:
